@@ -24,6 +24,10 @@ func init() {
 }
 
 // named exceptions: symbol + reason
+// read-side state of stream codecs: written by ReadMessage without a lock, justified by the
+// single-reader obligation (C10.single-reader) instead of a mutex.
+var c10ReaderState = map[string]bool{"jsonCodec.buffered": true}
+
 var c10FieldExceptions = map[string]string{
 	"Remote.Client": "lazy default in Remote.Call; every construction that is called concurrently sets Client explicitly (server.go, agent.go, host.go), client.go's Remote is used by one agent goroutine",
 }
@@ -367,6 +371,15 @@ func runC10(p *an.Prog, r *an.Run, tier string) {
 					}
 				}
 			}
+			if fn.Name() == "ReadMessage" {
+				for _, f := range w.Fields {
+					if t := structOfFieldAccess(f); t != nil {
+						if fv := an.FieldOf(f); fv != nil && c10ReaderState[fieldKey(t, fv)] {
+							exc = true
+						}
+					}
+				}
+			}
 			// sort.Interface methods of pendingQueue: only sorted inside pendingOldest on a slice built there
 			if fn.Signature.Recv() != nil {
 				if n := namedOf(fn.Signature.Recv().Type()); n != nil && n.Obj().Name() == "pendingQueue" {
@@ -380,6 +393,49 @@ func runC10(p *an.Prog, r *an.Run, tier string) {
 		}
 	}
 	r.Check(len(bad) == 0, "unsynchronised-write", "scope", token.NoPos, "no write to non-fresh state without a mutex in the concurrency scope", "data race candidates (shared object written by code that runs in several goroutines, no mutex held, not atomic): %s", strings.Join(dedup(bad), "; "))
+
+	// ---- single-reader: justification of the read-side codec state exception
+	bad = nil
+	nRead := 0
+	for _, fn := range p.Repo {
+		if isTestDoublePkg(fn) {
+			continue
+		}
+		for _, c := range an.Calls(fn, false) {
+			f := an.CallObj(c)
+			if f == nil || f.Name() != "ReadMessage" {
+				continue
+			}
+			n := an.RecvNamed(f)
+			if n == nil || n.Obj().Pkg() == nil || !strings.HasPrefix(n.Obj().Pkg().Path(), pkgRPC) {
+				continue
+			}
+			nRead++
+			switch {
+			case fn.Name() == "ReadMessage" && fn.Signature.Recv() != nil:
+				// a wrapping codec forwarding its own ReadMessage
+			case fn.Name() == "Serve" && fn.Signature.Recv() != nil && namedOf(fn.Signature.Recv().Type()) != nil && namedOf(fn.Signature.Recv().Type()).Obj().Name() == "Remote":
+				// the connection's single read loop
+				if _, isGo := c.(*ssa.Go); isGo {
+					bad = append(bad, "ReadMessage is started as a goroutine in Serve")
+				}
+			case fn.Name() == "ServeHTTP":
+				// one codec per HTTP request, allocated here
+				recv := c.Common().Value
+				if !c.Common().IsInvoke() && len(c.Common().Args) > 0 {
+					recv = c.Common().Args[0]
+				}
+				r0, _, _ := addrChain(recv)
+				if !isFreshRoot(p, sc, r0, 1) {
+					bad = append(bad, "ServeHTTP reads from a codec it did not allocate itself at "+p.Pos(c.Pos()))
+				}
+			default:
+				bad = append(bad, "ReadMessage is called from "+an.FuncName(fn)+" at "+p.Pos(c.Pos())+": a second reader on a connection races on the codec's read-side state and steals messages from the serve loop")
+			}
+		}
+	}
+	r.Floor("readmessage-callers", nRead, 4)
+	r.Check(len(bad) == 0, "single-reader", "Codec.ReadMessage", token.NoPos, "ReadMessage is only called by the per-connection Serve loop, by wrapping codecs and on per-request codecs", "%s", strings.Join(bad, "; "))
 
 	// ---- atomic-counter
 	bad = nil
